@@ -1,5 +1,5 @@
 // ======================================================================================
-// prelude/location_hash.rs — il::{FunctionLocation, ProgramLocation, RefFunctionLocation,
+// prelude/location_hash.rs - il::{FunctionLocation, ProgramLocation, RefFunctionLocation,
 // RefProgramLocation} as hash-table keys (HashMap<il::ProgramLocation, State> in
 // analysis::fixed_point, HashSet<il::FunctionLocation> in dead_code_elimination, ...).
 //
@@ -18,7 +18,7 @@
 //     and those il types derive Hash / PartialEq / Eq structurally over usize, u64, bool, String,
 //     Option, Vec, BTreeMap, BTreeSet and il::{Expression, Scalar, Constant} (Constant wraps a
 //     num-bigint BigUint, whose Hash / Eq are over its canonical digit vector), all lawful.
-//     Equal values therefore hash equally, and `==` coincides with structural equality — the
+//     Equal values therefore hash equally, and `==` coincides with structural equality - the
 //     same reading of derive(PartialEq) that units C04 / C15 already rely on (`eq_spec = ==`).
 // The axioms are broadcast; `broadcast use` them only in the module that keys a map on a location.
 // ======================================================================================
